@@ -470,7 +470,8 @@ def reload_history(cell, seed):
                 mod((yl, yh)).sum().backward()
     except Exception:
         return []
-    mod.load_state_dict(donor.state_dict())
+    if not util.reload_in_place(mod, donor):
+        return [res(INCONCLUSIVE, {'cell': cell2, 'check': 'reload'}, 'M-JAC', 'in-place reload of the filter buffers refused')]
     cell2 = dict(cell2, reloaded_from=cell['wave'])
     if cell['dir'] == 'forward':
         return forward_dir(cell2, seed, mod=mod, tag='reload-')
